@@ -44,6 +44,8 @@ Definition dispatch_robust (fn : string) (a : pv) : option pv :=
                  (jwe_json_typing (arg "obj" a)))
   else if String.eqb fn "rb_claim_types" then
     Some (rb_out rb_unit (claim_types (rb_dict (arg "claims" a))))
+  else if String.eqb fn "rb_oidc_claim_types" then
+    Some (rb_out rb_unit (oidc_claim_types (rb_dict (arg "claims" a))))
   else if String.eqb fn "rb_metadata_validate" then
     Some (rb_out rb_unit (metadata_validate rb_url (arg_strs "scopes_supported" a) (arg_strs "grant_types_supported" a)
                                             (arg_strs "response_types_supported" a) (rb_dict (arg "claims" a))))
